@@ -343,7 +343,7 @@ def check(run, replay=None):
     errs = regen(["BinUnits.v", "Formulas.v"], common.REPO)
     for e in errs:
         run.tie_broken("translator refused the current source (model is stale)", e)
-    ok, log, fails = common.coq_make(["theories/C03/Proofs.vo", "theories/Gen/BinUnits.vo", "theories/C02/Proofs.vo", "theories/C15/Proofs.vo"])
+    ok, log, fails = common.coq_make(["theories/C03/Proofs.vo", "theories/C03/Instance.vo", "theories/Gen/BinUnits.vo", "theories/C02/Proofs.vo", "theories/C02/PumpMono.vo", "theories/C15/Proofs.vo"])
     if not ok:
         for f, ln, msg in fails:
             run.tie_broken("proof no longer checks: %s line %s: %s" % (f, ln, common.theorem_line(f, ln)), msg)
